@@ -185,6 +185,9 @@ class TaskScheduler(object):
 
     def _continue_with_task(self, task):
         task._resume_contexts()
+        if task.is_computed():
+            # A context's resume() raised: the task has already failed with that error.
+            return 0
         old_task = self.active_task
         self.active_task = task
 
